@@ -87,6 +87,23 @@ def rule_R1(ck):
     keys = {k for p in ps for k, v in p.value}
     want = sym.op("lower", sym.cat(IP, NAME))
     ck.instance(("writer", "assignment"), {"writer": "compile_assignment", "key": [repr(k) for k in keys]}, fn="compiler::Compiler.compile_assignment")
+    # a plain 'x = V' (not 'x == V', no '.extern') stays private to its file: nothing is written to the export map
+    def thunk_ap():
+        sh = Shapes(I)
+        comp = I.instantiate(I.module_get("compiler", "Compiler"), [], {})
+        tgt = sh.symbol("x")
+        asg = sh.mk(I.module_get("types", "Assignment"), None, None, tgt, sh.xexpr(sym.var("V", "int"), "V"), False)
+        I.call_method(comp, "compile_assignment", [asg, mk_state(comp)])
+        lab = sh.mk(I.module_get("types", "Label"), None, None, "plain", False)
+        I.call_method(comp, "compile_label", [lab, sym.var("ADDR", "int"), mk_state(comp)])
+        return sorted(str(k) for k in _table(comp.fields["extern_symbols_mapping"]))
+    pa = I.explore(thunk_ap)
+    ck.instance(("writer", "private definitions"), {"exported after 'x = V' and 'plain:'": repr(pa[0].value) if pa and pa[0].kind == "return" else repr(pa)}, fn="compiler::Compiler.compile_assignment")
+    if len(pa) != 1 or pa[0].kind != "return":
+        ck.incomplete("compiler::Compiler.compile_assignment", "'x = V' and 'plain:' in a file without '.extern'", pa)
+    elif pa[0].value:
+        ck.violation("compiler::Compiler.compile_assignment", f"'x = V' and 'plain:' (no '==', no '::', no '.extern') export {pa[0].value}: a plain definition is private to its file - "
+                                                              "another file's 'x' must not bind to it, and two files may both define 'x'", construct="plain definitions are exported")
     if keys != {want}:
         ck.violation("compiler::Compiler.compile_assignment", f"a constant is stored under {[repr(k) for k in keys]}, expected {want!r}", construct="assignment key", expected=repr(want))
 
@@ -163,6 +180,26 @@ def rule_undefined_value(ck):
                                                "reports": [e[2] for p in ps for e in p.reported()]}, fn=where)
     if len(ps) != 1 or ps[0].kind != "return":
         return ck.incomplete(where, "resolve() / locate_definition() of a name nobody defines", ps)
+    # the export map names the symbol but the table has no such entry (a '.extern x' without any definition of x)
+    I3 = lazy(repo)
+    I3.summaries["containers::CaseInsensitiveDict.__contains__"] = lambda I_, fn, a, k: False
+    I3.summaries["containers::CaseInsensitiveDict.get"] = lambda I_, fn, a, k: ((sym.var("LOC", "obj"), ".internal9.nobody") if a[1] == "nobody" and isinstance(a[0], Rec) and a[0] is getattr(I_, "_extmap", None)
+                                                                                else (k.get("default") if len(a) < 3 else a[2]))
+
+    def thunk_e():
+        sh = Shapes(I3)
+        comp = I3.instantiate(I3.module_get("compiler", "Compiler"), [], {})
+        I3._extmap = comp.fields["extern_symbols_mapping"]
+        s = sh.symbol("nobody")
+        st = mk_state(comp)
+        return I3.call_method(s, "resolve", [st]), I3.call_method(s, "locate_definition", [st])
+    pe = I3.explore(thunk_e)
+    ck.instance(("reader", "declared but undefined"), {"resolve(), locate_definition() of a name that is only declared '.extern'": repr(pe[0].value) if pe else None, "reports": [e[2] for p in pe for e in p.reported()]}, fn=where)
+    if len(pe) != 1 or pe[0].kind != "return":
+        ck.incomplete(where, "resolve() / locate_definition() of a name that is declared '.extern' but defined nowhere", pe)
+    elif isinstance(pe[0].value[0], bool) or not isinstance(pe[0].value[0], int) or "undefined-symbol" not in [e[2] for e in pe[0].reported()]:
+        ck.violation(where, f"a name that is declared '.extern' but defined nowhere evaluates to {pe[0].value[0]!r} with the diagnostics {[e[2] for e in pe[0].reported()]}; expected the 'undefined-symbol' error and an integer",
+                     construct="declared but undefined symbol")
     val, loc = ps[0].value
     ids = [e[2] for e in ps[0].reported()]
     if "undefined-symbol" not in ids:
